@@ -322,7 +322,38 @@ func (r *rawReq) mutate(rng *rand.Rand, which int) string {
 			return "content-type added"
 		}
 	case 10: // body mutations
-		switch rng.IntN(10) {
+		switch rng.IntN(12) {
+		case 10:
+			// every JSON string value replaced (unknown discriminator, unparsable times, ...)
+			out := make([]byte, 0, len(r.body))
+			in, afterColon := false, false
+			for i := 0; i < len(r.body); i++ {
+				c := r.body[i]
+				switch {
+				case !in && c == ':':
+					afterColon = true
+					out = append(out, c)
+				case !in && c == '"' && afterColon:
+					in = true
+					out = append(out, []byte(`"zzz`)...)
+				case in && c == '\\':
+					i++
+				case in && c == '"':
+					in, afterColon = false, false
+					out = append(out, c)
+				case in:
+				default:
+					if c != ' ' {
+						afterColon = afterColon && c == ':'
+					}
+					out = append(out, c)
+				}
+			}
+			r.body = out
+			return "body string values replaced by zzz"
+		case 11:
+			r.body = []byte(`{"kind":"nope","t":"nope","petType":"nope","type":7}`)
+			return "body with unknown discriminator values"
 		case 0:
 			r.body = nil
 			return "body emptied"
